@@ -68,6 +68,34 @@ fn cmd_optimize(v: &Value) -> Value {
     out
 }
 
+/// `lift`: P-Code project in the extractor's JSON schema (real serde types) -> { ir, normalized }
+fn cmd_lift(v: &Value) -> Value {
+    let pcode: Result<cwe_checker_lib::pcode::Project, _> = serde_json::from_value(v["project"].clone());
+    let mut pcode = match pcode {
+        Ok(p) => p,
+        Err(e) => return json!({"error": format!("pcode project does not deserialize: {}", e)}),
+    };
+    let r = catch_unwind(AssertUnwindSafe(|| {
+        let logs = pcode.normalize();
+        let ir = pcode.into_ir_project(0);
+        (ir, logs)
+    }));
+    let (ir, logs) = match r {
+        Ok(x) => x,
+        Err(p) => return json!({"panic": format!("lifting: {}", panic_msg(p))}),
+    };
+    let mut out = json!({"ir": conv::project_to(&ir), "logs": logs.iter().map(|l| l.text.clone()).collect::<Vec<_>>()});
+    let mut full = ir.clone();
+    match catch_unwind(AssertUnwindSafe(|| {
+        let _ = full.normalize();
+        full
+    })) {
+        Ok(p) => out["normalized"] = conv::project_to(&p),
+        Err(p) => out["normalize_panic"] = json!(panic_msg(p)),
+    }
+    out
+}
+
 fn main() {
     let args: Vec<String> = std::env::args().collect();
     let cmd = args.get(1).map(|s| s.as_str()).unwrap_or("");
@@ -88,6 +116,7 @@ fn main() {
             }
         };
         let r = match cmd {
+            "lift" => catch_unwind(AssertUnwindSafe(|| cmd_lift(&v))).unwrap_or_else(|p| json!({"panic": panic_msg(p)})),
             "optimize" => catch_unwind(AssertUnwindSafe(|| cmd_optimize(&v))).unwrap_or_else(|p| json!({"panic": panic_msg(p)})),
             _ => json!({"error": "unknown command"}),
         };
